@@ -7,8 +7,8 @@ dirs=${@:-$(ls seeded)}
 for d in $dirs; do
   pid=${d%%_*}
   if [ -n "$(git -C /repo status --porcelain)" ]; then echo "/repo is dirty, abort"; exit 2; fi
-  git -C /repo apply --check seeded/$d/patch.diff 2>/dev/null || { echo "$d: patch does not apply"; continue; }
-  git -C /repo apply seeded/$d/patch.diff
+  git -C /repo apply --check /verif/seeded/$d/patch.diff 2>/dev/null || { echo "$d: patch does not apply"; continue; }
+  git -C /repo apply /verif/seeded/$d/patch.diff
   s=$(date +%s)
   ./check $pid --tier quick > seeded/$d/check_$pid.out 2>&1; echo "exit $?" >> seeded/$d/check_$pid.out
   git -C /repo checkout -- .
